@@ -248,6 +248,7 @@ class SimDevice:
         # hooks (all optional)
         self.on_exchange: Optional[Callable] = None   # (conn, req_frame, resp_packets:list[bytes]) -> actions | None
         self.on_handshake: Optional[Callable] = None  # (conn, token_ok, default_reply:bytes, info) -> actions | None
+        self.on_accept: Optional[Callable] = None     # (conn) -> actions | None, run when a connection is accepted
         self.nonce_source: Optional[Callable] = None
         self.accept_token: Optional[Callable] = None  # (token) -> bool
         self.silent_on_bad_token = False
@@ -271,6 +272,10 @@ class SimDevice:
         c = DevConn(self, transport)
         self.conns.append(c)
         self.events.append((transport.loop.time(), "conn", c.id, "open"))
+        if self.on_accept is not None:
+            actions = self.on_accept(c)
+            if actions:
+                c.emit(actions)
         return c
 
     # ---- wrapping ----
